@@ -1,4 +1,5 @@
 import Cello.Text
+import Cello.TextScan
 import CelloGen.Text
 import Driver.Common
 /- driver for engine `text` (C15).  Op file (see harness/h_text.c for the same grammar):
@@ -173,21 +174,27 @@ def itemEq : Item → Val → Bool
 
 def doR (k : Kind) (start : Nat) (mode : Nat) (its : List Item) (z : List Nat) : IO Unit := do
   let c := srcCfg
+  -- extension round: writer and reader are the ones parametrised by the branches / formats / C types extracted from the source
+  -- (Cello/TextScan.lean: `%$` through show_to / look_from and the formats of Num.c, the typed character path, the literal branch)
+  let x := srcX
   let o : Sink := { kind := k, data := filler start }
   -- print mode: ONE print_to_with / scan_from_with on the format string (the model cuts it with the extracted conversion sets);
   -- show mode: one call per item
   let fmt := its.flatMap Item.fmt
   -- split: one print_to_with per item = `printItems` (each item's own format is cut into that item); join: one per item on the read side
   let w : Option (Sink × Nat) :=
-    if mode == 1 || mode == 3 then printFmt c o start fmt (its.filterMap Item.val?) else some (printItems c o start its)
+    if mode == 1 || mode == 3 then printFmtX x o start fmt (its.filterMap Item.val?)
+    else if mode == 0 then printItemsD x o start its      -- show mode: show_to called directly, no `%$` branch
+    else printItemsX x o start its
   match w with
   | none => IO.println "O R w=unmodelled"
   | some (o', wpos) =>
     let text := o'.data.drop start
     let inp : Input := { kind := k, text := o'.data ++ z, cur := start }
     let rr : Option (List Val × Res (Input × Nat)) :=
-      if mode == 1 || mode == 2 then scanFmt c inp start fmt (its.filterMap (fun it => sentinel it.shape))
-      else some (scanItems c inp start (its.map Item.shape))
+      if mode == 1 || mode == 2 then scanFmtX x inp start fmt (its.filterMap (fun it => sentinel it.shape))
+      else if mode == 0 then some (scanItemsD x inp start (its.map Item.shape))     -- look_from called directly
+      else some (scanItemsX x inp start (its.map Item.shape))
     match rr with
     | none => IO.println s!"O R w={wpos} text={dump text} r=unmodelled"
     | some (vals, r) =>
@@ -204,7 +211,7 @@ def doR (k : Kind) (start : Nat) (mode : Nat) (its : List Item) (z : List Nat) :
 
 def doK (probe : Nat) (k : Kind) (start : Nat) (sh : Shape) (text : List Nat) : IO Unit := do
   let inp : Input := { kind := k, text := text, cur := start }
-  let (v, r) := scanItem srcCfg inp start sh
+  let (v, r) := scanItemD srcX inp start sh      -- kinds s i f: look_from directly; a specification: scan_from
   let (rs, tell) := showRes k r
   if probe == 1 then IO.println s!"O L r={rs} val={showVals v.toList} tell={tell} leaked={scanLeak srcCfg inp start sh}"
   else if probe == 2 then IO.println s!"O T r={rs} val={showVals v.toList} tell={tell}"
